@@ -334,3 +334,12 @@ Proof.
   rewrite fdir_layout_len by exact FV. replace (fdir_header_len f + 1 - fdir_header_len f) with 1 by lia.
   reflexivity.
 Qed.
+
+(* the default of `last` is irrelevant for a non-empty list *)
+Lemma last_cons_default {A} (r : list A) : forall x d1 d2, last (x :: r) d1 = last (x :: r) d2.
+Proof.
+  induction r as [|y r IH]; intros x d1 d2; [reflexivity|].
+  change (last (x :: y :: r) d1) with (last (y :: r) d1). change (last (x :: y :: r) d2) with (last (y :: r) d2).
+  apply IH.
+Qed.
+
